@@ -369,6 +369,13 @@ func main() {
 		d = *budget
 	}
 	c.Deadline = c.Start.Add(d)
+	// watchdog: a hang (a call that never returns in the code under test) must not stall the caller
+	// forever; well after the internal deadline the process gives up without a verdict.
+	go func() {
+		time.Sleep(2*d + 5*time.Minute)
+		fmt.Println("INFRASTRUCTURE: watchdog expired (a call into the library never returned?); no verdict")
+		os.Exit(2)
+	}()
 	if *replay != "" {
 		data, err := os.ReadFile(*replay)
 		if err != nil {
